@@ -52,7 +52,7 @@ Ltac proj_simpl :=
 (* after [pstep_inv H] (the pre-state must be an explicit record) the post-state is explicit and
    every guard is a hypothesis; the boolean guards are left as they are ([bnorm] splits them) *)
 Ltac pstep_inv H :=
-  unfold pstep in H; proj_simpl; step_split H; injection H as H; subst; proj_simpl.
+  unfold pstep in H; proj_simpl; step_split H; try discriminate H; injection H as H; subst; proj_simpl.
 
 Lemma pev_eqb_eq x y : pev_eqb x y = true -> x = y.
 Proof.
@@ -444,9 +444,9 @@ Proof.
   intros [Hrange Hnd Hfr Hst] Hord Hstep. unfold ord_st in *.
   destruct s as [n st h lt o d c]. proj_simpl.
   destruct l as [e start|e a busy|e next|parent k|e idx|e a r|e]; pstep_inv Hstep; bnorm.
-  - (* PTake time-out *) apply ord_push_unordered; [apply unordered_kind; right; lia|exact Hord].
-  - (* PTake *) apply (ord_take e h o lt); [lia|exact Hord].
-  - (* PTake, no action *) apply (ord_take e h o lt); [lia|exact Hord].
+  - (* PTake time-out *) cbn [map fev]. apply ord_push_unordered; [apply unordered_kind; right; lia|exact Hord].
+  - (* PTake *) cbn [map fev]. apply (ord_take e h o lt); [lia|exact Hord].
+  - (* PTake, no action *) cbn [map fev]. apply (ord_take e h o lt); [lia|exact Hord].
   - (* PDo *) exact Hord.
   - (* PPropagate *)
     inversion Hfr as [|? ? Hf Hfr']; subst.
@@ -514,4 +514,314 @@ Lemma outs_increasing n ls s : prun (pinit n) ls = Some s ->
 Proof.
   intros Hrun. destruct (pinv_reachable _ _ _ Hrun) as [_ Hord].
   unfold increasing. rewrite filter_rev', map_rev. apply sorted_gt_rev. exact (oo_outs _ _ _ _ Hord).
+Qed.
+
+(* ------------------------------------------------------------------------------------------- *)
+(* conservation: every ordered event taken is in exactly one place                               *)
+
+Definition places (s : pst) : list pev := outs s ++ dropped s ++ map snd (held s) ++ map fev (stack s).
+Definition taken1 (l : plabel) : list pev :=
+  match l with PTake e _ => if ordered e then [e] else [] | _ => [] end.
+Definition taken (ls : list plabel) : list pev := flat_map taken1 ls.
+Notation cnt := (count_occ pev_eq_dec).
+
+Lemma In_taken e ls : In e (taken ls) <-> ordered e = true /\ exists start, In (PTake e start) ls.
+Proof.
+  unfold taken. rewrite in_flat_map. split.
+  - intros [l [Hl He]]. destruct l; cbn [taken1] in He; try contradiction.
+    destruct (ordered e0) eqn:Ho; [|contradiction]. destruct He as [<-|[]]. split; [exact Ho|eauto].
+  - intros [Ho [start Hin]]. exists (PTake e start). split; [exact Hin|]. cbn [taken1]. rewrite Ho. left; reflexivity.
+Qed.
+
+Lemma cnt_unhold h a p x : held_at h a = Some p ->
+  cnt (map snd h) x = (cnt [p] x + cnt (map snd (unhold h a)) x)%nat.
+Proof.
+  induction h as [|[i y] r IH]; cbn [held_at unhold]; [discriminate|].
+  destruct (i =? a); intros H.
+  - inversion H; subst. cbn [map snd count_occ]. destruct (pev_eq_dec p x); lia.
+  - cbn [map snd count_occ]. rewrite (IH H). cbn [count_occ]. destruct (pev_eq_dec y x), (pev_eq_dec p x); lia.
+Qed.
+
+Lemma cnt_unordered x e : ordered x = false -> ordered e = true -> cnt [x] e = 0%nat.
+Proof. intros Hx He. cbn [count_occ]. destruct (pev_eq_dec x e); [congruence|reflexivity]. Qed.
+
+Lemma cnt_cons x l e : cnt (x :: l) e = (cnt [x] e + cnt l e)%nat.
+Proof. cbn [count_occ]. destruct (pev_eq_dec x e); reflexivity. Qed.
+
+Lemma places_step s l s' e : pstep s l = Some s' -> ordered e = true ->
+  cnt (places s') e = (cnt (taken1 l) e + cnt (places s) e)%nat.
+Proof.
+  intros Hstep He. destruct s as [n st h lt o d c]. unfold places.
+  destruct l as [e0 start|e0 a busy|e0 next|parent k|e0 idx|e0 a r|e0]; pstep_inv Hstep; bnorm;
+    cbn [taken1]; rewrite ?count_occ_app; cbn [map fev].
+  - (* PTake time-out *)
+    assert (Hu : ordered e0 = false) by (apply unordered_kind; right; assumption).
+    rewrite Hu, (cnt_unordered _ _ Hu He). cbn [count_occ]. lia.
+  - destruct (ordered e0) eqn:Ho; [cbn [count_occ]; lia|]. rewrite (cnt_unordered _ _ Ho He). cbn [count_occ]. lia.
+  - destruct (ordered e0) eqn:Ho; [cbn [count_occ]; lia|]. rewrite (cnt_unordered _ _ Ho He). cbn [count_occ]. lia.
+  - (* PDo *) cbn [count_occ]. lia.
+  - (* PPropagate *)
+    match goal with H : pev_eqb _ _ = true |- _ => apply pev_eqb_eq in H; subst end.
+    match goal with H : held_at _ _ = Some _ |- _ => rewrite (cnt_unhold _ _ _ e H) end.
+    assert (Hf : fev (if next <? n then {| fev := p; fidx := next; fph := BeforeDo |}
+                      else {| fev := p; fidx := next - 1; fph := MustOut |}) = p) by (destruct (next <? n); reflexivity).
+    rewrite Hf. rewrite (cnt_cons p (fev f :: map fev l)). cbn [count_occ]. lia.
+  - (* PSpawn *) cbn [count_occ]. lia.
+  - (* PPush *)
+    assert (Hf : fev (if idx <? n then {| fev := e0; fidx := idx; fph := BeforeDo |}
+                      else {| fev := e0; fidx := idx - 1; fph := MustOut |}) = e0) by (destruct (idx <? n); reflexivity).
+    rewrite Hf. rewrite (cnt_cons e0 (fev f :: map fev l)).
+    assert (Hu : ordered e0 = false).
+    { apply unordered_kind.
+      match goal with H : _ || _ = true |- _ => apply orb_true_iff in H; destruct H as [H|H] end; bnorm; [left|right]; lia. }
+    rewrite (cnt_unordered _ _ Hu He). cbn [count_occ]. lia.
+  - (* RPass *)
+    assert (Hf : fev (after_pass (fev f) a n) = fev f) by (unfold after_pass; destruct (a + 1 <? n); reflexivity).
+    rewrite Hf. cbn [count_occ]. lia.
+  - (* RCollapse *)
+    rewrite (cnt_cons (fev f) (map fev l)).
+    destruct (pkind (fev f) =? 3) eqn:Ek; bnorm.
+    + rewrite (cnt_unordered (fev f) e); [cbn [count_occ]; lia| apply unordered_kind; right; assumption|assumption].
+    + rewrite (cnt_cons (fev f) d). cbn [count_occ]. lia.
+  - (* RDiscard *)
+    rewrite (cnt_cons (fev f) (map fev l)).
+    destruct (pkind (fev f) =? 3) eqn:Ek; bnorm.
+    + rewrite (cnt_unordered (fev f) e); [cbn [count_occ]; lia| apply unordered_kind; right; assumption|assumption].
+    + rewrite (cnt_cons (fev f) d). cbn [count_occ]. lia.
+  - (* RHold *)
+    cbn [map snd]. rewrite (cnt_cons (fev f) (map fev l)), (cnt_cons (fev f) (map snd h)). cbn [count_occ]. lia.
+  - (* RBreak *) cbn [count_occ]. lia.
+  - (* POut *)
+    rewrite (cnt_cons (fev f) (map fev l)), (cnt_cons (fev f) o). cbn [count_occ]. lia.
+Qed.
+
+Lemma places_run ls : forall s s' e, prun s ls = Some s' -> ordered e = true ->
+  cnt (places s') e = (cnt (taken ls) e + cnt (places s) e)%nat.
+Proof.
+  induction ls as [|l r IH]; intros s s' e Hrun He; cbn [prun] in Hrun.
+  - inversion Hrun; subst. reflexivity.
+  - destruct (pstep s l) as [s1|] eqn:E; [|discriminate].
+    unfold taken; cbn [flat_map]; fold (taken r). rewrite count_occ_app.
+    rewrite (IH _ _ _ Hrun He), (places_step _ _ _ _ E He). lia.
+Qed.
+
+(* events are taken in increasing seq *)
+Lemma taken_step s l s' : pstep s l = Some s' ->
+  lasttaken s <= lasttaken s' /\ Forall (fun e => lasttaken s < pseq e <= lasttaken s') (taken1 l).
+Proof.
+  intros Hstep. destruct s as [n st h lt o d c].
+  destruct l as [e0 start|e0 a busy|e0 next|parent k|e0 idx|e0 a r|e0]; pstep_inv Hstep; bnorm;
+    cbn [taken1]; try (split; [lia|constructor]).
+  - rewrite (unordered_kind e0) by (right; assumption). split; [lia|constructor].
+  - split; [lia|]. destruct (ordered e0); repeat constructor; lia.
+  - split; [lia|]. destruct (ordered e0); repeat constructor; lia.
+Qed.
+
+Lemma taken_run ls : forall s s', prun s ls = Some s' ->
+  lasttaken s <= lasttaken s' /\ Forall (fun e => lasttaken s < pseq e <= lasttaken s') (taken ls) /\ NoDup (taken ls).
+Proof.
+  induction ls as [|l r IH]; intros s s' Hrun; cbn [prun] in Hrun.
+  - inversion Hrun; subst. split; [lia|]. split; constructor.
+  - destruct (pstep s l) as [s1|] eqn:E; [|discriminate].
+    destruct (taken_step _ _ _ E) as [Hle1 Hf1]. destruct (IH _ _ Hrun) as [Hle2 [Hf2 Hnd2]].
+    unfold taken; cbn [flat_map]; fold (taken r). split; [lia|]. split.
+    + apply Forall_app. split; (eapply Forall_impl; [|eassumption]); intros x Hx; cbn beta in *; lia.
+    + destruct l; cbn [taken1 app] in Hf1 |- *; try exact Hnd2.
+      destruct (ordered e); cbn [app]; [|exact Hnd2]. constructor; [|exact Hnd2].
+      intros Hin. rewrite Forall_forall in Hf2. specialize (Hf2 _ Hin).
+      inversion Hf1 as [|? ? Hb _]; subst. lia.
+Qed.
+
+Lemma conservation_cnt n ls s : prun (pinit n) ls = Some s ->
+  NoDup (taken ls) /\ forall e, ordered e = true -> cnt (places s) e = cnt (taken ls) e.
+Proof.
+  intros Hrun. split; [apply (taken_run _ _ _ Hrun)|].
+  intros e He. rewrite (places_run _ _ _ _ Hrun He). cbn. lia.
+Qed.
+
+Lemma conservation n ls s : prun (pinit n) ls = Some s ->
+  forall e, ordered e = true ->
+    ((exists start, In (PTake e start) ls) -> cnt (places s) e = 1%nat) /\
+    (~ (exists start, In (PTake e start) ls) -> ~ In e (places s)).
+Proof.
+  intros Hrun e He. destruct (conservation_cnt _ _ _ Hrun) as [Hnd Hc]. rewrite (Hc e He). split.
+  - intros Hex. assert (Hin : In e (taken ls)) by (apply In_taken; auto).
+    pose proof (proj1 (NoDup_count_occ pev_eq_dec _) Hnd e). apply (count_occ_In pev_eq_dec) in Hin. lia.
+  - intros Hno Hin. apply (count_occ_In pev_eq_dec) in Hin. rewrite (Hc e He) in Hin.
+    apply (count_occ_In pev_eq_dec) in Hin. apply In_taken in Hin. tauto.
+Qed.
+
+Lemma conservation_perm n ls s : prun (pinit n) ls = Some s ->
+  Permutation (filter ordered (places s)) (taken ls).
+Proof.
+  intros Hrun. destruct (conservation_cnt _ _ _ Hrun) as [_ Hc].
+  apply (Permutation_count_occ pev_eq_dec). intros x. destruct (ordered x) eqn:Hx.
+  - rewrite <- (Hc x Hx). clear Hc. induction (places s) as [|y r IH]; [reflexivity|].
+    cbn [filter]. destruct (ordered y) eqn:Hy; cbn [count_occ].
+    + destruct (pev_eq_dec y x); lia.
+    + destruct (pev_eq_dec y x); [congruence|exact IH].
+  - transitivity 0%nat; [|symmetry]; apply count_occ_not_In.
+    + intros Hin. apply filter_In in Hin. destruct Hin; congruence.
+    + intros Hin. apply In_taken in Hin. destruct Hin; congruence.
+Qed.
+
+(* ------------------------------------------------------------------------------------------- *)
+(* an event leaves only when nothing is held                                                     *)
+
+Lemma held_nil_after_out n ls e s : prun (pinit n) (ls ++ [POut e]) = Some s -> held s = [].
+Proof.
+  rewrite prun_app. destruct (prun (pinit n) ls) as [s1|] eqn:E1; [|discriminate].
+  cbn [prun]. destruct (pstep s1 (POut e)) as [s2|] eqn:E2; [|discriminate]. intros H; inversion H; subst s2.
+  destruct (struct_reachable _ _ _ E1) as [_ _ Hfr _].
+  destruct s1 as [n1 st h lt o d c]. proj_simpl. pstep_inv E2.
+  inversion Hfr as [|? ? [_ Hf] _]; subst. auto.
+Qed.
+
+(* ------------------------------------------------------------------------------------------- *)
+(* time-outs enter the chain at a holder                                                         *)
+
+Lemma timeout_take s e start s' : pstep s (PTake e start) = Some s' -> pkind e = 3 ->
+  held_at (held s) start <> None /\ (forall j y, In (j, y) (held s) -> start <= j) /\
+  stack s' = [{| fev := e; fidx := start; fph := BeforeDo |}] /\ held s' = held s.
+Proof.
+  intros Hstep Hk. destruct s as [n st h lt o d c]. pstep_inv Hstep; bnorm; try lia.
+  repeat split; [congruence|]. apply none_left; assumption.
+Qed.
+
+Lemma timeout_push s e idx s' : pstep s (PPush e idx) = Some s' -> pkind e = 3 ->
+  held_at (held s) idx <> None /\ (forall j y, In (j, y) (held s) -> idx <= j) /\ held s' = held s.
+Proof.
+  intros Hstep Hk. destruct s as [n st h lt o d c]. pstep_inv Hstep; bnorm.
+  match goal with H : _ || _ = true |- _ => apply orb_true_iff in H; destruct H as [H|H] end; bnorm; [lia|].
+  repeat split; [|apply none_left; assumption]. destruct (held_at h idx); [discriminate|discriminate].
+Qed.
+
+Lemma timeout_take_do s e start s1 e' a busy s2 :
+  pstep s (PTake e start) = Some s1 -> pkind e = 3 -> pstep s1 (PDo e' a busy) = Some s2 ->
+  e' = e /\ a = start /\ busy = true.
+Proof.
+  intros H1 Hk H2. destruct (timeout_take _ _ _ _ H1 Hk) as [Hh [_ [Hs Hheld]]].
+  destruct s1 as [n st h lt o d c]. proj_simpl. subst st. pstep_inv H2; bnorm.
+  match goal with H : pev_eqb _ _ = true |- _ => apply pev_eqb_eq in H end. subst.
+  repeat split; auto. destruct (held_at (held s) start); [reflexivity|congruence].
+Qed.
+
+Lemma timeout_push_do s e idx s1 e' a busy s2 :
+  pstep s (PPush e idx) = Some s1 -> pkind e = 3 -> pstep s1 (PDo e' a busy) = Some s2 ->
+  e' = e /\ a = idx /\ busy = true.
+Proof.
+  intros H1 Hk H2. destruct (timeout_push _ _ _ _ H1 Hk) as [Hh [_ Hheld]].
+  destruct s as [n st h lt o d c]. pstep_inv H1. proj_simpl. subst.
+  destruct (idx <? n); pstep_inv H2; bnorm.
+  match goal with H : pev_eqb _ _ = true |- _ => apply pev_eqb_eq in H end. subst.
+  repeat split; auto. destruct (held_at h idx); [reflexivity|congruence].
+Qed.
+
+(* ------------------------------------------------------------------------------------------- *)
+(* the model without P5 (the PPush guard as it was before this development): ordering fails       *)
+
+Definition pstep_noP5 (s : pst) (l : plabel) : option pst :=
+  match l with
+  | PPush e idx =>
+      if pcrashed s then None else
+      match stack s with
+      | f :: r =>
+          match fph f with
+          | InDo =>
+              if (pkind e =? 1) || ((pkind e =? 3) && match held_at (held s) idx with Some _ => true | None => false end)
+              then Some (set_stack s ((if idx <? nact s then {| fev := e; fidx := idx; fph := BeforeDo |}
+                                       else {| fev := e; fidx := idx - 1; fph := MustOut |}) :: f :: r))
+              else None
+          | _ => None
+          end
+      | [] => None
+      end
+  | _ => pstep s l
+  end.
+
+Fixpoint prun_noP5 (s : pst) (ls : list plabel) : option pst :=
+  match ls with
+  | [] => Some s
+  | l :: r => match pstep_noP5 s l with Some s' => prun_noP5 s' r | None => None end
+  end.
+
+(* P5 only strengthens the guard *)
+Lemma pstep_noP5_weaker s l s' : pstep s l = Some s' -> pstep_noP5 s l = Some s'.
+Proof.
+  destruct l; cbn [pstep_noP5]; auto. intros H. destruct s as [n st h lt o d c]. pstep_inv H; bnorm.
+  match goal with H : _ || _ = true |- _ => apply orb_true_iff in H; destruct H as [H|H] end; bnorm.
+  - match goal with H : pkind _ = 1 |- _ => rewrite H end. reflexivity.
+  - match goal with H : pkind _ = 3 |- _ => rewrite H end.
+    match goal with H : match ?x with _ => _ end = true |- _ => rewrite H end. reflexivity.
+Qed.
+
+Definition ev (q k : Z) : pev := {| pseq := q; pkind := k |}.
+
+(* a child entered LEFT of the spawning action flushes a newer event past an older one that is
+   inside a Do (3 actions; e1 held at 1, e2 held at 0; e3's child flushes e1, e1's child flushes e2) *)
+Definition w_child_left : list plabel :=
+  [PTake (ev 1 0) 0; PDo (ev 1 0) 0 false; PResult (ev 1 0) 0 RPass; PDo (ev 1 0) 1 false; PResult (ev 1 0) 1 RHold;
+   PTake (ev 2 0) 0; PDo (ev 2 0) 0 false; PResult (ev 2 0) 0 RHold;
+   PTake (ev 3 0) 0; PDo (ev 3 0) 0 true; PPush (ev 0 1) 1; PDo (ev 0 1) 1 true; PPropagate (ev 1 0) 2;
+   PDo (ev 1 0) 2 false; PPush (ev 0 1) 0; PDo (ev 0 1) 0 true; PPropagate (ev 2 0) 1;
+   PDo (ev 2 0) 1 false; PResult (ev 2 0) 1 RPass; PDo (ev 2 0) 2 false; PResult (ev 2 0) 2 RPass; POut (ev 2 0);
+   PResult (ev 0 1) 0 RDiscard; PResult (ev 1 0) 2 RPass; POut (ev 1 0)].
+
+(* a Spawn time-out delivered PAST a holder (to action 1 while action 0 holds the newer e2) *)
+Definition w_timeout_past : list plabel :=
+  [PTake (ev 1 0) 0; PDo (ev 1 0) 0 false; PResult (ev 1 0) 0 RPass; PDo (ev 1 0) 1 false; PResult (ev 1 0) 1 RHold;
+   PTake (ev 2 0) 0; PDo (ev 2 0) 0 false; PResult (ev 2 0) 0 RHold;
+   PTake (ev 3 0) 0; PDo (ev 3 0) 0 true; PPush (ev 0 3) 1; PDo (ev 0 3) 1 true; PPropagate (ev 1 0) 2;
+   PDo (ev 1 0) 2 false; PPush (ev 0 3) 0; PDo (ev 0 3) 0 true; PPropagate (ev 2 0) 1;
+   PDo (ev 2 0) 1 false; PResult (ev 2 0) 1 RPass; PDo (ev 2 0) 2 false; PResult (ev 2 0) 2 RPass; POut (ev 2 0);
+   PResult (ev 0 3) 0 RDiscard; PResult (ev 1 0) 2 RPass; POut (ev 1 0)].
+
+Lemma not_increasing_21 : ~ increasing [2; 1].
+Proof. intros H. inversion H as [|? ? _ Hf]; subst. inversion Hf; subst. lia. Qed.
+
+Lemma outs_increasing_noP5_refuted :
+  exists n ls s, prun_noP5 (pinit n) ls = Some s /\ ~ increasing (map pseq (filter ordered (rev (outs s)))).
+Proof.
+  exists 3, w_child_left.
+  destruct (prun_noP5 (pinit 3) w_child_left) as [s|] eqn:E; [|vm_compute in E; discriminate].
+  exists s. split; [reflexivity|]. vm_compute in E. inversion E; subst s. cbn. exact not_increasing_21.
+Qed.
+
+Lemma outs_increasing_noP5_timeout_refuted :
+  exists n ls s, prun_noP5 (pinit n) ls = Some s /\ ~ increasing (map pseq (filter ordered (rev (outs s)))).
+Proof.
+  exists 3, w_timeout_past.
+  destruct (prun_noP5 (pinit 3) w_timeout_past) as [s|] eqn:E; [|vm_compute in E; discriminate].
+  exists s. split; [reflexivity|]. vm_compute in E. inversion E; subst s. cbn. exact not_increasing_21.
+Qed.
+
+(* without P5 an event can also leave the processor while an action still holds one *)
+Definition w_held_after_out : list plabel :=
+  [PTake (ev 1 0) 0; PDo (ev 1 0) 0 false; PResult (ev 1 0) 0 RPass; PDo (ev 1 0) 1 false;
+   PPush (ev 0 1) 0; PDo (ev 0 1) 0 false; PResult (ev 0 1) 0 RHold; PResult (ev 1 0) 1 RPass; POut (ev 1 0)].
+
+Lemma held_nil_after_out_noP5_refuted :
+  exists n ls e s, prun_noP5 (pinit n) (ls ++ [POut e]) = Some s /\ stack s = [] /\ held s <> [].
+Proof.
+  exists 2, (removelast w_held_after_out), (ev 1 0).
+  destruct (prun_noP5 (pinit 2) (removelast w_held_after_out ++ [POut (ev 1 0)])) as [s|] eqn:E; [|vm_compute in E; discriminate].
+  exists s. split; [reflexivity|]. vm_compute in E. inversion E; subst s. cbn. split; [reflexivity|discriminate].
+Qed.
+
+(* the general reading "every Do of a time-out is at a busy action" is false of the model: after
+   flushing, the time-out may itself pass on to the next action *)
+Definition w_timeout_passes : list plabel :=
+  [PTake (ev 1 0) 0; PDo (ev 1 0) 0 false; PResult (ev 1 0) 0 RHold;
+   PTake (ev 0 3) 0; PDo (ev 0 3) 0 true; PPropagate (ev 1 0) 1; PDo (ev 1 0) 1 false; PResult (ev 1 0) 1 RPass;
+   POut (ev 1 0); PResult (ev 0 3) 0 RPass].
+
+Lemma timeout_do_busy_refuted :
+  exists n ls s e a s', prun (pinit n) ls = Some s /\ pkind e = 3 /\ pstep s (PDo e a false) = Some s'.
+Proof.
+  exists 2, w_timeout_passes.
+  destruct (prun (pinit 2) w_timeout_passes) as [s|] eqn:E; [|vm_compute in E; discriminate].
+  exists s, (ev 0 3), 1.
+  destruct (pstep s (PDo (ev 0 3) 1 false)) as [s'|] eqn:E2.
+  - exists s'. auto.
+  - exfalso. vm_compute in E. inversion E; subst s. vm_compute in E2. discriminate.
 Qed.
